@@ -62,6 +62,14 @@ CLAIMED.update({
          TB + "Sinc/FFT stream theorems and ratio schedules are not proved; float deviation measured. Axioms: Reals.",
          "machine-checked proof in Coq (refinement of every call to a chunking-free stream specification, induction over the call list) + families of differently chunked runs compared on the implementation and against the bit-exact model", "DESIGN.md 7 C05"),
 })
+CLAIMED.update({
+ "C01": ("PARTIAL proof. Proved in Coq (ideal arithmetic): for the instant t of an output frame a sinc resampler evaluates FIR filters (each kernel = exact dot product of the input window with one branch of the oversampled table) at the grid points of spacing 1/factor around t — cell-1..cell+2 (cubic), cell..cell+2 (quadratic), cell..cell+1 (linear), each with a valid branch index — and blends them with the Lagrange polynomial on exactly those nodes at exactly the offset of t in its cell; nearest mode picks a branch within 1/(2 factor) of t. This is the premise of the textbook interpolation bounds of the property. NOT proved: the frequency responses (amplitude 1 %/0.1 %, leakage 80..150 dB): measured on every run by tone probes on the real crate over windows x sinc_len x interpolation x oversampling x ratio x chunking x f32/f64 and on the FFT resamplers (least-squares fit of every expected component, residual, common delay), with a subset also run bit for bit on the model.",
+         TB + "Source of make_sincs/make_window/interpolation.rs/FFT core pinned by hash (hand models). Thresholds are those of the property text. Axioms: Reals.",
+         "machine-checked proof in Coq of the grid/blend structure (partial) + tone-probe measurements against the property's thresholds", "DESIGN.md 7 C01"),
+ "C02": ("PARTIAL proof. Proved in Coq: the cutoff given to the table generator by the public constructors is f_cutoff for ratio >= 1 and f_cutoff*ratio when downsampling (regenerated from make_interpolator; over R and in binary32/binary64). The code that realises the stopband (window functions, calculate_cutoff, make_sincs, FFT filter construction and spectrum truncation) is pinned by hash. NOT proved: the attenuation figures; measured on every run: tones beyond the stopband edge (down-sampling), images of transition-band tones (up-sampling), the -6 dB point at f_cutoff = calculate_cutoff, FFT tones above the lower Nyquist (> 100 dB), calculate_cutoff against its fitted formula.",
+         TB + "Thresholds are those of the property text. Axioms: Reals (R statement only).",
+         "machine-checked proof in Coq of the cutoff scaling (partial) + stopband / image / -6 dB probe measurements", "DESIGN.md 7 C02"),
+})
 NOT_YET = {}
 ALL = ["C%02d" % i for i in range(1, 19)]
 
